@@ -3,7 +3,8 @@
    lists of operations; the only way a queued task starts is a scheduler event EPop / ESteal followed by EDispatch). *)
 From Coq Require Import List Bool Arith NArith ZArith.
 From QV Require Import Kernel.GenSpawnTable Kernel.Placement Kernel.Model Kernel.ProofsPin Kernel.Progress Kernel.ProgressInv
-     Kernel.ProgressProofs Kernel.ProgressMeasure Kernel.ProgressEnabled.
+     Kernel.ProgressProofs Kernel.ProgressMeasure Kernel.ProgressEnabled Kernel.ProgressCinv Kernel.ProgressBusy
+     Kernel.ProgressCompletion Kernel.ProgressFinal.
 From QV Require TQueue.Model TQueue.Proofs.
 Import ListNotations.
 
@@ -46,44 +47,111 @@ Theorem C04p_executions_finite : forall ns nw ac chunk prog es c,
 Proof. exact executions_finite_init_l. Qed.
 Print Assumptions C04p_executions_finite.
 
-(* ENABLED_IF_WORK (no stranded task), own queue.  PARTIAL in this sense: the simulation relation between queue nodes and
-   kernel references (node_agrees) is a hypothesis about the state; its preservation along executions is checked on the
-   model's runs (ProgressExamples) and on the real runs (quiescent_ok), not proved here. *)
-Theorem C04p_enabled_if_work_own_partial : forall c s w,
-  kinv c.(ck) -> idle c.(ck) s w = true -> s < c.(ck).(nsh) -> w < c.(ck).(nwk) ->
-  TQueue.Model.items (TQueue.Model.getq c.(cs) s) <> [] ->
-  (forall n, In n (TQueue.Model.items (TQueue.Model.getq c.(cs) s)) -> node_agrees c.(ck) s n) ->
-  NoDup (map ntid (TQueue.Model.items (TQueue.Model.getq c.(cs) s))) ->
-  (forall n, TQueue.Model.items (TQueue.Model.getq c.(cs) s) = [n] -> TQueue.Model.mccoy n = true -> packed c.(ck) s w = 0) ->
-  exists c', cstep c (EPop s w) = Some c'.
-Proof. exact enabled_if_work_own_l. Qed.
-Print Assumptions C04p_enabled_if_work_own_partial.
+(* THE SIMULATION RELATION IS AN INVARIANT.  reach = reachable from the initial state of a well-formed finite program on
+   ns >= 1 shepherds x nw >= 1 workers with a steal chunk >= 0.  In every reachable state: every node of every sherwood queue
+   stands for a kernel InQueue reference with the same stealable bit (an unstealable node sits in the queue of the very
+   shepherd the kernel has it on; the McCoy bit marks tid 0), every kernel InQueue reference has exactly one node in all
+   queues together, and both counters of every queue are exact. *)
+Theorem C04p_queue_simulation : forall ns nw ac chunk prog c,
+  reach ns nw ac chunk prog c ->
+  (forall i n, In n (TQueue.Model.items (TQueue.Model.getq c.(cs) i)) -> node_agrees c.(ck) i n) /\
+  (forall t, TQueue.Proofs.cntq (N.of_nat t) (TQueue.Model.queues c.(cs)) =
+             match place_of t c.(ck).(places) with Some (InQueue _ _) => 1 | _ => 0 end) /\
+  TQueue.Proofs.sys_exact c.(cs).
+Proof. exact queue_simulation_r. Qed.
+Print Assumptions C04p_queue_simulation.
 
-Theorem C04p_enabled_if_work_pop_partial : forall c s w n q',
-  kinv c.(ck) -> idle c.(ck) s w = true -> s < c.(ck).(nsh) -> w < c.(ck).(nwk) ->
+(* the full invariant of the composed system (kernel consistency, all shepherds enabled, the simulation relation,
+   well-formed programs - QTHREAD_SIMPLE tasks have non-suspending bodies -, main blocked once its program is exhausted) *)
+Theorem C04p_reachable_invariant : forall ns nw ac chunk prog es c,
+  0 < ns -> 0 < nw -> (0 <= chunk)%Z -> wf_prog prog = true ->
+  crun (cinit ns nw ac chunk prog) es = Some c -> cinv c.
+Proof. exact reachable_cinv. Qed.
+Print Assumptions C04p_reachable_invariant.
+
+(* ENABLED_IF_WORK (no stranded task), own queue: in every reachable state an idle worker whose shepherd's queue is not
+   empty has an enabled scheduler step - unless all the queue holds is the McCoy task and the worker is not worker 0
+   (the McCoy node only ever sits in shepherd 0's queue; then it waits for worker 0.0: mccoy_handover of C08) *)
+Theorem C04p_enabled_if_work_own : forall ns nw ac chunk prog c s w,
+  reach ns nw ac chunk prog c ->
+  idle c.(ck) s w = true -> s < c.(ck).(nsh) -> w < c.(ck).(nwk) ->
+  TQueue.Model.items (TQueue.Model.getq c.(cs) s) <> [] ->
+  (forall n, TQueue.Model.items (TQueue.Model.getq c.(cs) s) = [n] -> TQueue.Model.mccoy n = true -> w = 0) ->
+  exists c', cstep c (EPop s w) = Some c'.
+Proof. exact enabled_if_work_own_r. Qed.
+Print Assumptions C04p_enabled_if_work_own.
+
+(* whatever node the C owner path hands out, the kernel accepts it for that worker *)
+Theorem C04p_enabled_if_work_pop : forall ns nw ac chunk prog c s w n q',
+  reach ns nw ac chunk prog c ->
+  idle c.(ck) s w = true -> s < c.(ck).(nsh) -> w < c.(ck).(nwk) ->
   TQueue.Model.dequeue_worker (TQueue.Model.getq c.(cs) s) (packed c.(ck) s w) = (Some n, q') ->
-  node_agrees c.(ck) s n -> (TQueue.Model.mccoy n = true -> packed c.(ck) s w = 0) ->
   exists c', cstep c (EPop s w) = Some c' /\ place_of (ntid n) c'.(ck).(places) = Some (Held s w false) /\
              c'.(cs) = TQueue.Model.setq c.(cs) s q' /\ c'.(cprog) = c.(cprog).
-Proof. exact enabled_if_work_pop_l. Qed.
-Print Assumptions C04p_enabled_if_work_pop_partial.
+Proof. exact enabled_if_work_pop_r. Qed.
+Print Assumptions C04p_enabled_if_work_pop.
 
-(* ENABLED_IF_WORK, stranded work: an idle worker of an ENABLED shepherd with an empty own queue obtains a task from any
-   victim holding a stealable node (uses steal_progress / steal_only_stealable of C08 on the exact counters); the task it
-   gets is stealable, hence neither pinned nor the McCoy task.  Unstealable nodes are only ever taken by their own
-   shepherd's workers (the own-queue theorem above), the McCoy task only by worker 0.0. *)
-Theorem C04p_enabled_if_work_steal_partial : forall c s w v,
-  kinv c.(ck) -> idle c.(ck) s w = true -> s < c.(ck).(nsh) -> w < c.(ck).(nwk) -> v < c.(ck).(nsh) -> v <> s ->
-  nthb c.(ck).(active) s = true ->
+(* ENABLED_IF_WORK, stranded work: an idle worker with an empty own queue obtains a task from ANY victim that holds a
+   stealable node (steal_progress / steal_only_stealable of C08 on the exact counters); the task is stealable, hence neither
+   pinned nor the McCoy task.  (All shepherds are enabled in the model's scope.) *)
+Theorem C04p_enabled_if_work_steal : forall ns nw ac chunk prog c s w v,
+  reach ns nw ac chunk prog c ->
+  idle c.(ck) s w = true -> s < c.(ck).(nsh) -> w < c.(ck).(nwk) -> v < c.(ck).(nsh) -> v <> s ->
   TQueue.Model.items (TQueue.Model.getq c.(cs) s) = [] ->
-  TQueue.Proofs.exact (TQueue.Model.getq c.(cs) v) -> (0 <= TQueue.Model.chunk c.(cs))%Z ->
   0 < TQueue.Model.count_stl (TQueue.Model.items (TQueue.Model.getq c.(cs) v)) ->
-  (forall n, In n (TQueue.Model.items (TQueue.Model.getq c.(cs) v)) -> node_agrees c.(ck) v n) ->
   exists c' n, cstep c (ESteal s w v) = Some c' /\ TQueue.Model.stl n = true /\
                In n (TQueue.Model.items (TQueue.Model.getq c.(cs) v)) /\
                place_of (ntid n) c'.(ck).(places) = Some (Held s w false).
-Proof. exact enabled_if_work_steal_l. Qed.
-Print Assumptions C04p_enabled_if_work_steal_partial.
+Proof. exact enabled_if_work_steal_r. Qed.
+Print Assumptions C04p_enabled_if_work_steal.
+
+(* a worker that holds a task always has an enabled event of its own: dispatch (send home / execute), the next operation of
+   the body or its return, or the post-switch of qthread_master *)
+Theorem C04p_busy_worker_can_step : forall ns nw ac chunk prog c s w t l,
+  reach ns nw ac chunk prog c -> worker_ref s w c.(ck).(places) = Some (t, l) ->
+  exists e c', internal e = true /\ cstep c e = Some c'.
+Proof. exact busy_worker_can_step_r. Qed.
+Print Assumptions C04p_busy_worker_can_step.
+
+(* COMPLETION.  stuck c: no event of the runtime (scheduler, dispatch, body, post-switch of any worker) is enabled.
+   released c (hypothesis blocked_eventually_released, as a property of the last state): no task is left on a waiter list,
+   an unsatisfied precondition or in the blocking subsystem, except the main task in its final wait.
+   For every finite well-formed program, every configuration and every execution ending in such a state: every successfully
+   spawned task (ids 1 .. next-1: failed spawns consume no id) is TERMINATED, was started exactly once, its descriptor is in
+   the freed pool; every ready queue is empty with both counters 0; every worker is idle; main is in its final wait; and the
+   kernel component is a run of Kernel.Model, so C04_arg_semantics / C04_exec_gets_spawn_argument give "with its spawn
+   argument" (EDispatch executes a NEW task with LExec ... (Some t_arg)). *)
+Theorem C04p_every_spawn_runs_exactly_once : forall ns nw ac chunk prog es c,
+  0 < ns -> 0 < nw -> (0 <= chunk)%Z -> wf_prog prog = true ->
+  crun (cinit ns nw ac chunk prog) es = Some c -> stuck c -> released c ->
+  (forall t, 0 < t -> t < c.(ck).(next) ->
+             exists x, get_task t c.(ck).(tasks) = Some x /\ x.(t_state) = TERMINATED /\ x.(t_started) = 1 /\
+                       place_of t c.(ck).(places) = Some Freed) /\
+  (forall i, TQueue.Model.items (TQueue.Model.getq c.(cs) i) = [] /\ TQueue.Model.qlen (TQueue.Model.getq c.(cs) i) = 0%Z /\
+             TQueue.Model.qstl (TQueue.Model.getq c.(cs) i) = 0%Z) /\
+  (forall s w, worker_ref s w c.(ck).(places) = None) /\
+  place_of 0 c.(ck).(places) = Some Blocked /\
+  (exists tr, run (init ns nw ac) tr = Some c.(ck)).
+Proof. exact every_spawn_runs_exactly_once_l. Qed.
+Print Assumptions C04p_every_spawn_runs_exactly_once.
+
+(* the same for MAXIMAL executions.  quiescent c: NO event extends the execution, the environment's releases included.  The
+   environment offers the release of every waiting task at any time (EWake / ELaunch / EIoDone are enabled for every blocked
+   / nascent / syscall-blocked task but main in its final wait), so an execution that is maximal in this sense has released
+   every blocked task: this is the fairness assumption (an enabled event is eventually taken) on finite executions. *)
+Theorem C04p_every_spawn_runs_exactly_once_maximal : forall ns nw ac chunk prog es c,
+  0 < ns -> 0 < nw -> (0 <= chunk)%Z -> wf_prog prog = true ->
+  crun (cinit ns nw ac chunk prog) es = Some c -> quiescent c ->
+  (forall t, 0 < t -> t < c.(ck).(next) ->
+             exists x, get_task t c.(ck).(tasks) = Some x /\ x.(t_state) = TERMINATED /\ x.(t_started) = 1 /\
+                       place_of t c.(ck).(places) = Some Freed) /\
+  (forall i, TQueue.Model.items (TQueue.Model.getq c.(cs) i) = [] /\ TQueue.Model.qlen (TQueue.Model.getq c.(cs) i) = 0%Z /\
+             TQueue.Model.qstl (TQueue.Model.getq c.(cs) i) = 0%Z) /\
+  (forall s w, worker_ref s w c.(ck).(places) = None) /\
+  place_of 0 c.(ck).(places) = Some Blocked /\
+  (exists tr, run (init ns nw ac) tr = Some c.(ck)).
+Proof. exact every_spawn_runs_exactly_once_quiescent_l. Qed.
+Print Assumptions C04p_every_spawn_runs_exactly_once_maximal.
 
 (* SPAWN FAILURE (qthread_spawn step 4: `qthread_thread_free(t); return test;`) *)
 Theorem C04p_spawn_failure_leaves_no_trace : forall st caller row shep_param asize src pre rc,
